@@ -7,14 +7,15 @@ REP = [0, 2, 3, 5, 6, 8, 9, 11]
 def cubes(tier):
     if tier == "quick":
         out = [dict(cls=c, nsteps=1, a1=a) for c in ("local", "base") for a in range(NACT)]
-        out += [dict(cls="local", nsteps=2, a1=a, a2=b, _w=8) for a, b in ((3, 9), (5, 2), (6, 0), (0, 11))]
+        out += [dict(cls="local", nsteps=2, a1=a, a2=b, e_lo=lo, e_hi=lo + 5, _w=5) for a, b in ((3, 9), (6, 0)) for lo in (-1, 5, 11, 17)]
         out += [dict(cls="local", nsteps=1, a1=a, upload=True) for a in (2, 5)]
-        out += [dict(cls="local", nsteps=2, probe=i, e_lo=lo, e_hi=lo + 5, _w=6) for i in (0, 2) for lo in (-1, 5, 11, 17)]
+        out += [dict(cls="local", nsteps=2, probe=i, span=5, e_lo=lo, e_hi=lo + 5, _w=4) for i in (0, 2) for lo in (-1, 5, 11, 17)]
+        out += [dict(cls="local", nsteps=2, probe=i, wipe=True, span=5, e_lo=lo, e_hi=lo + 5, _w=4) for i in (0, 2) for lo in (5, 11, 17)]
         return out
     out = [dict(cls=c, nsteps=2, a1=a, a2=b, _w=8) for c in ("local", "base") for a in REP for b in REP]
     out += [dict(cls=c, nsteps=1, a1=a, upload=u) for c in ("local", "base") for a in range(NACT) for u in (False, True)]
-    out += [dict(cls="local", nsteps=2, probe=i, upload=u, e_lo=lo, e_hi=lo + 5, _w=6) for i in range(3) for u in (False, True)
-            for lo in (-1, 5, 11, 17, 23)]
+    out += [dict(cls="local", nsteps=2, probe=i, upload=u, wipe=w, e_lo=lo, e_hi=lo + 5, _w=6) for i in range(3) for u in (False, True)
+            for w in (False, True) for lo in (-1, 5, 11, 17, 23)]
     return out
 
 
